@@ -4,7 +4,7 @@ CONSTANTS
   Heads <- HeadsOps
   Levels = {}
   Calls = {}
-  TextBytes = {0, 2, 97}
+  TextBytes = {2, 97}
   MaxText = 2
   Ops = {"abort"}
   LogMax = 256
